@@ -732,7 +732,11 @@ namespace Pistache::Http
             throw Error("Response exceeded buffer size");
         }
 
-        if (writeHeaders(response_.headers(), buf_))
+        if (!writeHeaders(response_.headers(), buf_))
+        {
+            throw Error("Response exceeded buffer size");
+        }
+
         {
             std::ostream os(&buf_);
             /* @Todo @Major:
@@ -746,6 +750,8 @@ namespace Pistache::Http
             if (!os)
                 throw Error("Response exceeded buffer size");
             os << crlf;
+            if (!os)
+                throw Error("Response exceeded buffer size");
         }
     }
 
